@@ -96,12 +96,15 @@ template <class T, int NG> struct GL {
     return s * h;
   }
 };
-// adaptive: whole panel against its two halves
+// adaptive: whole panel against its two halves.  The acceptance threshold never drops below the round-off level of the panel
+// itself (16 eps |integral|), and the recursion is at most 14 deep (a 16-point rule on 1/16384 of a panel is far beyond resolved),
+// so the cost is bounded whatever the integrand.
 template <class T, class F> inline T adapt(F f, T a, T b, T abstol, int depth = 0) {
   const GL<T, 16>& g = GL<T, 16>::get();
   T m = (a + b) / 2;
   T i1 = g.panel(f, a, b), i2 = g.panel(f, a, m) + g.panel(f, m, b);
-  if (fn::Fabs(i1 - i2) <= abstol || depth >= 40) return i2;
+  T thr = 16 * fn::Eps(T(0)) * fn::Fabs(i2); if (abstol > thr) thr = abstol;
+  if (fn::Fabs(i1 - i2) <= thr || depth >= 14) return i2;
   return adapt<T, F>(f, a, m, abstol / 2, depth + 1) + adapt<T, F>(f, m, b, abstol / 2, depth + 1);
 }
 
@@ -302,6 +305,17 @@ template <class T, int NMAX = 48> struct Traj {
     return (u < 0 ? -H : H) * w;
   }
 
+  // area integrand over [a,b] inside the current step: 20-point Gauss-Legendre, halved until the halves agree with the whole (the
+  // step size is chosen from the geodesic alone; on very eccentric ellipsoids H(sin phi) varies faster than the geodesic near a pole)
+  T area_panel(T a, T b, int depth) const {
+    const GL<T, 20>& g = GL<T, 20>::get();
+    auto gl = [&](T x0, T x1) { T c = (x0 + x1) / 2, hh = (x1 - x0) / 2, q = 0; for (int i = 0; i < 20; ++i) q += g.w[i] * area_integrand(c + hh * g.x[i]); return q * hh; };
+    T m = (a + b) / 2, i1 = gl(a, b), i2 = gl(a, m) + gl(m, b);
+    T thr = 64 * fn::Eps(T(0)) * (fn::Fabs(i2) + fn::Fabs(b - a) * T(1e-3L));
+    if (fn::Fabs(i1 - i2) <= thr || depth >= 8) return i2;
+    return area_panel(a, m, depth + 1) + area_panel(m, b, depth + 1);
+  }
+
   void track() {
     // longitude
     if (meridional) {
@@ -355,11 +369,7 @@ template <class T, int NMAX = 48> struct Traj {
       hdir = rem < 0 ? -1 : 1;
       bool last = fn::Fabs(rem) <= h;
       if (last) h = rem; else if (fn::Fabs(rem) < 2 * h) h = rem / 2; else h = hdir * h;
-      if (want_area && !meridional) {
-        T c = h / 2, q = 0;
-        for (int i = 0; i < 20; ++i) q += g.w[i] * area_integrand(c + c * g.x[i]);
-        aint += q * c;
-      }
+      if (want_area && !meridional) aint += area_panel(T(0), h, 0);
       T nr[3], nt[3];
       for (int i = 0; i < 3; ++i) { nr[i] = horner(R[i], N, h); nt[i] = horner(Tt[i], N, h); }
       T u0 = horner(U[0], N, h), v0 = horner(V[0], N, h), u1 = horner(U[1], N, h), v1 = horner(V[1], N, h);
